@@ -954,9 +954,14 @@ class RWMH(_AbstractSampler):
                 f"{self.learning_rate}"
             )
 
-            if type(self.stepsize) == _numpy.ndarray:
+            if type(self.stepsize) == _numpy.ndarray and self.stepsize.ndim > 0:
                 self._stepsize_non_scalar_part = self.stepsize
                 self.stepsize = 1.0
+
+            # Any scalar spelling is a scalar: int, numpy.float64 (which is what a
+            # previous autotuned run leaves in sampler.stepsize), numpy.float32, ...
+            if _numpy.ndim(self.stepsize) == 0:
+                self.stepsize = float(self.stepsize)
 
             assert type(self.stepsize) == float, (
                 "Autotuning RWMH is only implemented for scalar stepsizes. If you need "
